@@ -1,3 +1,52 @@
 package harness
 
-func childHashMain() {}
+import (
+	"fmt"
+	"os"
+	"strconv"
+	"strings"
+
+	"github.com/bool64/cache"
+)
+
+// Pool of types for the gob types hash laws.
+type (
+	hashT1 struct{ A int }
+	hashT2 struct {
+		A int
+		B string
+	}
+	hashT3 struct{ Inner hashT1 }
+	hashT4 struct{ P *hashT2 }
+	hashT5 struct{ S []hashT1 }
+	hashT6 struct{ M map[string]hashT2 }
+	hashT7 struct {
+		hashT1
+		C float64
+	}
+	hashT8 struct{ B []byte }
+)
+
+var hashPool = []interface{}{hashT1{}, hashT2{}, hashT3{}, hashT4{}, hashT5{}, hashT6{}, hashT7{}, hashT8{}}
+
+// childHashMain registers the pool types named by VERIF_HASH_ORDER (comma separated indexes,
+// repetitions allowed) in that order and prints the resulting types hash.
+func childHashMain() {
+	order := os.Getenv("VERIF_HASH_ORDER")
+
+	for _, f := range strings.Split(order, ",") {
+		if f == "" {
+			continue
+		}
+
+		i, err := strconv.Atoi(f)
+		if err != nil || i < 0 || i >= len(hashPool) {
+			fmt.Println("bad order")
+			os.Exit(2)
+		}
+
+		cache.GobRegister(hashPool[i])
+	}
+
+	fmt.Printf("HASH=%d\n", cache.GobTypesHash())
+}
